@@ -4,22 +4,27 @@ worktree with the rewrite applied).  Usage: tools/harmless_results.py <log-dir> 
 import json, re, sys
 from pathlib import Path
 logdir, prefix = Path(sys.argv[1]), sys.argv[2]
+logdir2, prefix2 = (Path(sys.argv[3]), sys.argv[4]) if len(sys.argv) > 4 else (None, None)  # round 2: ids ending in 2, logs named after the base id, rows prefixed r8
 S = Path('/verif/seeded_harmless')
 rows = []
 for d in sorted(S.glob('C*[ab]')):
     sid = d.name
     log = logdir / f'{prefix}{sid}.log'
+    tag = sid
+    if sid.endswith('2') and logdir2 is not None:
+        log = logdir2 / f'{prefix2}{sid[:-1]}.log'
+        tag = 'r8' + sid[:-1]
     meta = json.loads((d/'meta.json').read_text())
     if not log.exists():
         rows.append((sid, meta, None)); continue
     txt = log.read_text()
     per = {}
-    for m in re.finditer(r'^%s (C\d\d) \[C\d\d\].*?violations=(\d+)' % re.escape(sid), txt, re.M):
+    for m in re.finditer(r'^%s (C\d\d) \[C\d\d\].*?violations=(\d+)' % re.escape(tag), txt, re.M):
         per[m.group(1)] = dict(violations=int(m.group(2)), concrete=0, nfif=0)
-    for m in re.finditer(r'^\s+%s (C\d\d) VIOLATION (.*)$' % re.escape(sid), txt, re.M):
+    for m in re.finditer(r'^\s+%s (C\d\d) VIOLATION (.*)$' % re.escape(tag), txt, re.M):
         c = per.setdefault(m.group(1), dict(violations=0, concrete=0, nfif=0))
         c['nfif' if 'no-failing-input-found' in m.group(2) else 'concrete'] += 1
-    infra = re.findall(r'^\s+%s (C\d\d) INFRA' % re.escape(sid), txt, re.M)
+    infra = re.findall(r'^\s+%s (C\d\d) INFRA' % re.escape(tag), txt, re.M)
     meta['check_result'] = dict(checks_run=len(per), quiet=sorted(c for c, v in per.items() if not v['violations']), no_failing_input_found=sorted(c for c, v in per.items() if v['nfif'] and not v['concrete']), failing_input_claimed=sorted(c for c, v in per.items() if v['concrete']), infra=sorted(set(infra)))
     (d/'meta.json').write_text(json.dumps(meta, indent=1))
     rows.append((sid, meta, meta['check_result']))
